@@ -127,7 +127,7 @@ type c09Exec struct {
 	kind   string
 	mode   string // run | test | server | console | service
 	src    func(i int) string
-	expect string                      // substring expected in class+err (shows the execution ended the intended way)
+	expect string                       // substring expected in class+err (shows the execution ended the intended way)
 	svc    func(i int) (string, string) // service: (endpoint path, file)
 }
 
@@ -154,7 +154,9 @@ func c09NoClose(dbDir string) []c09Exec {
 }
 
 func c09Mix(srcRoot string, dbDir string) []c09Exec {
-	main := func(body string) string { return "import \"fmt\"\nimport \"sort\"\nimport \"sync\"\nimport \"os\"\nimport \"strings\"\n" + body }
+	main := func(body string) string {
+		return "import \"fmt\"\nimport \"sort\"\nimport \"sync\"\nimport \"os\"\nimport \"strings\"\n" + body
+	}
 
 	return []c09Exec{
 		{kind: "normal", mode: "run", expect: "ok", src: func(i int) string {
